@@ -64,7 +64,7 @@ VEnums(it) ==
 
 ----------------------------------------------------------------------------------------------------
 (* F3 dictionary keys: every key form; the four codes belong to the one rule "keys of a legal type"  *)
-KeyTargets == {"cs_ok", "cs_bad", "cs_nested_bad", "cs_nested_ok", "s", "e_u", "e_n", "custom", "alias_int", "alias_seq", "alias_s", "alias_cs"}
+KeyTargets == {"cs_ok", "cs_bad", "cs_nested_bad", "cs_nested_ok", "cs_optfield", "cs_seqfield", "cs_enumfield", "s", "e_u", "e_n", "custom", "alias_int", "alias_seq", "alias_s", "alias_cs"}
 KeyForms == [f : {"prim"}, n : {"bool", "int8", "uint8", "int16", "uint16", "int32", "uint32", "varint32", "varuint32", "int64", "uint64",
                                 "varint62", "varuint62", "float32", "float64", "string"}, opt : BOOLEAN]
             \cup [f : {"named"}, n : KeyTargets, opt : BOOLEAN]
@@ -72,7 +72,7 @@ KeyForms == [f : {"prim"}, n : {"bool", "int8", "uint8", "int16", "uint16", "int
 KeyLegalForm(k) ==
   /\ ~k.opt
   /\ \/ k.f = "prim" /\ k.n \notin {"float32", "float64"}
-     \/ k.f = "named" /\ k.n \in {"cs_ok", "cs_nested_ok", "e_u", "custom", "alias_int", "alias_cs"}
+     \/ k.f = "named" /\ k.n \in {"cs_ok", "cs_nested_ok", "cs_enumfield", "e_u", "custom", "alias_int", "alias_cs"}
 \* where the key sits: directly in a field, nested as the value of another dictionary, inside a sequence, in a parameter
 KeyItems == [key : KeyForms, at : {"field", "nested", "elem", "param", "alias"}]
 VKeys(it) == IF KeyLegalForm(it.key) THEN {} ELSE {"E003", "E004", "E005", "E006"}
